@@ -104,6 +104,9 @@ pub enum Op {
     CrashReopen,
     Vacuum,
     Doctor { rebuild_time: bool, rebuild_lex: bool, rebuild_vec: bool, vacuum: bool },
+    /// begin_batch(PutManyOpts::default()): no automatic checkpoints, records still synced per put
+    BeginBatch,
+    EndBatch,
 }
 
 #[derive(Debug, Clone, Copy, PartialEq, Eq, Serialize, Deserialize)]
@@ -771,6 +774,14 @@ impl Exec {
                 self.path = snap;
                 self.reopen(op_index)?;
                 self.stats.crash_reopens += 1;
+                Ok(true)
+            }
+            Op::BeginBatch => {
+                let _ = self.mem().begin_batch(memvid_core::PutManyOpts::default());
+                Ok(true)
+            }
+            Op::EndBatch => {
+                let _ = self.mem().end_batch();
                 Ok(true)
             }
             Op::Vacuum => {
